@@ -55,6 +55,16 @@ func runC14Sio(c *sim.Ctx, t *testing.T, failing bool) {
 	}
 	logged := map[string]int{} // per machine: how many log entries were already accounted for
 	shape := ""
+	if g.spawn && c.Chance(1, 5, "badspawn") {
+		// (fault) the name the first machine created mid-cascade will get is first tried with a
+		// spec that does not compile: that attempt fails and must leave no trace in the routing
+		bad := map[string]interface{}{"name": "bad", "nodes": map[string]interface{}{"start": map[string]interface{}{"action": map[string]interface{}{"interpreter": "no-such-interpreter", "source": "return {};"}}}}
+		m := map[string]interface{}{"id": "badspawn", "to": "captain", "update": map[string]interface{}{"late1": map[string]interface{}{"spec": map[string]interface{}{"inline": bad}}}}
+		if c.Guard("ProcessMsg "+ref.Canon(m), func() { crew.ProcessMsg(ctx, vfJSONCopy(m)) }) {
+			return
+		}
+		c.Count("failed_creations")
+	}
 	poisoned := map[string]bool{}
 	for k := 0; k < nmsgs; k++ {
 		msg := g.message(2)
